@@ -632,11 +632,11 @@ func genC29(g *Gen, idx int) *Plan {
 func init() {
 	Register(&Check{ID: "C18", Level: "exploration",
 		Rule:   "harness goroutines drive RetryTransaction / TimedTransaction (delays 0, 1 ns, 1 us, 1 ms, 1 s; count 0-3; failing callbacks; context cancel) calling Success/Fail/Proceed at instants on and around the timer instants, with every yield site of transactions/ enabled so that the timer goroutine can be parked anywhere inside timeout(); every fifth run drives sleepTransaction through Client.Sleep against the scripted gateway; non-trivial = the transaction completed",
-		Gen:    genC18, Oracle: oracleC18, Quick: 3000, Thorough: 300000})
+		Gen:    genC18, Oracle: oracleC18, Quick: 3000, Thorough: 600000})
 	Register(&Check{ID: "C19", Level: "exploration",
 		Rule:   "single-threaded RetryTransaction/TimedTransaction timelines: count 0-6, delays 1 ms-10 s (+ sub-ms offset), Proceed/Success/Fail placed at k*delay +- {20 us, 0.5 ms, delay/2}; every third retry timeline has 1-2 windows in which Paused() reports true (expired delays neither retried nor counted); the recorded virtual timestamps of every retry callback and of completion are compared with a reference timeline (tolerance 2 us per re-armed timer for the seam's jitter); non-trivial = at least one expected callback or completion",
-		Gen:    genC19, Oracle: oracleC19, Quick: 3000, Thorough: 200000})
+		Gen:    genC19, Oracle: oracleC19, Quick: 3000, Thorough: 600000})
 	Register(&Check{ID: "C29", Level: "exploration",
 		Rule:   "2-4 harness goroutines x 2-6 calls on IDSequence (ranges of 1-5 ids at the bottom and at the top (max 0xFFFF/0xFFFE) of the 16-bit space, full range in the thorough tier), TransactionStore (both key spaces, unique values) and ClientState, all yield sites enabled; invoke/return stamped with the global history index; checked with porcupine v1.3.0 against sequential models (counter with overflow-on-first-after-wrap, map per key, swap register), 10 s timeout (Unknown counted, never reported); non-trivial = >= 2 completed operations",
-		Gen:    genC29, Oracle: oracleC29, Quick: 3000, Thorough: 300000})
+		Gen:    genC29, Oracle: oracleC29, Quick: 3000, Thorough: 600000})
 }
